@@ -24,6 +24,7 @@ import (
 	"sort"
 	"strconv"
 	"strings"
+	"sync"
 	"sync/atomic"
 	"time"
 
@@ -38,7 +39,32 @@ import (
 
 // ---------------------------------------------------------------- consensus helper stub
 
-type helper struct{ genesis []*types.GenesisInfo }
+type helper struct {
+	genesis []*types.GenesisInfo
+	gate    *gate // when set, CheckGroup is a two-party barrier (concurrent AddGroup scenario)
+}
+
+// gate releases two goroutines together (or each alone after 50 ms, so that a call that
+// never reaches CheckGroup cannot block the other).
+type gate struct {
+	mu sync.Mutex
+	n  int
+	ch chan struct{}
+}
+
+func newGate() *gate { return &gate{ch: make(chan struct{})} }
+func (g *gate) wait() {
+	g.mu.Lock()
+	g.n++
+	if g.n == 2 {
+		close(g.ch)
+	}
+	g.mu.Unlock()
+	select {
+	case <-g.ch:
+	case <-time.After(50 * time.Millisecond):
+	}
+}
 
 func (h *helper) GenerateGenesisInfo() []*types.GenesisInfo {
 	// initGroupChain saves &genesis.Group and mutates GroupHeight: hand out fresh copies
@@ -63,7 +89,12 @@ func (h *helper) VerifyBlockHeader(bh *types.BlockHeader) (bool, error) { return
 func (h *helper) VerifyGroupSign(groupPubkey []byte, blockHash common.Hash, sign []byte) (bool, error) {
 	return true, nil
 }
-func (h *helper) CheckGroup(g *types.Group) (bool, error) { return true, nil }
+func (h *helper) CheckGroup(g *types.Group) (bool, error) {
+	if gt := h.gate; gt != nil {
+		gt.wait()
+	}
+	return true, nil
+}
 func (h *helper) VerifyMemberInfo(bh *types.BlockHeader, preBH *types.BlockHeader) (bool, error) {
 	return true, nil
 }
@@ -85,6 +116,8 @@ type node struct {
 	nBoot    int
 	inits    int
 	nExec    int
+	pending  []string // results of the two concurrent AddGroup calls, in the order they are reported as cadd lines
+	nConc    int
 	nRestart int
 }
 
@@ -286,6 +319,31 @@ func (n *node) mutate(ws []string) (string, bool) {
 	return "", false
 }
 
+// conc runs AddGroup(g1) and AddGroup(g2) in two goroutines that are released together inside
+// CheckGroup (the last thing AddGroup does before it takes the chain lock). It returns the two
+// results and the order in which the calls are to be explained sequentially: the accepted one first.
+func (n *node) conc(g1, g2 *types.Group) (r1, r2 string, firstIs1 bool) {
+	gc := core.GetGroupChain()
+	n.everIds[string(g1.Id)] = g1.Id
+	n.everIds[string(g2.Id)] = g2.Id
+	n.h.gate = newGate()
+	var wg sync.WaitGroup
+	wg.Add(2)
+	go func() { defer wg.Done(); r1 = guard(func() string { return addErr(gc.AddGroup(g1)) }) }()
+	go func() { defer wg.Done(); r2 = guard(func() string { return addErr(gc.AddGroup(g2)) }) }()
+	wg.Wait()
+	n.h.gate = nil
+	n.nConc++
+	firstIs1 = !(r2 == "ok" && r1 != "ok")
+	if r1 == "ok" && r2 == "ok" {
+		// both accepted: report in chain order if the chain shows one (no sequential order explains it anyway)
+		if l := gc.LastGroup(); l != nil && string(l.Id) == string(g1.Id) {
+			firstIs1 = false
+		}
+	}
+	return
+}
+
 func listStr(l []string) string {
 	if len(l) == 0 {
 		return "none"
@@ -456,11 +514,42 @@ func (n *node) exec(line string) string {
 		return "unmodelled"
 	}
 	switch ws[0] {
-	case "add", "rmlast", "rmto", "restart", "crash":
+	case "add", "rmlast", "rmto", "restart", "crash", "conc":
 		n.hist = append(n.hist, line)
 	}
 	if !n.alive {
 		return "dead"
+	}
+	if ws[0] == "conc" && len(ws) == 6 {
+		// conc <id1> <id2> <pre> <parent> <create>: two concurrent AddGroup calls naming the same predecessor
+		g1, ok1 := parseGroup4(ws[1], ws[3], ws[4], ws[5])
+		g2, ok2 := parseGroup4(ws[2], ws[3], ws[4], ws[5])
+		if !ok1 || !ok2 {
+			return "bad-op"
+		}
+		r1, r2, first1 := n.conc(g1, g2)
+		l1 := "cadd " + ws[1] + " " + ws[3] + " " + ws[4] + " " + ws[5]
+		l2 := "cadd " + ws[2] + " " + ws[3] + " " + ws[4] + " " + ws[5]
+		if first1 {
+			n.pending = []string{l1, r1, l2, r2}
+		} else {
+			n.pending = []string{l2, r2, l1, r1}
+		}
+		return r1 + " " + r2 + " " + n.status()
+	}
+	if ws[0] == "cadd" && len(ws) == 5 {
+		// one of the two calls of the preceding conc, reported in the sequential order that explains them
+		if len(n.pending) >= 2 && n.pending[0] == line {
+			r := n.pending[1]
+			n.pending = n.pending[2:]
+			return r
+		}
+		g, ok := parseGroup4(ws[1], ws[2], ws[3], ws[4])
+		if !ok {
+			return "bad-op"
+		}
+		n.everIds[string(g.Id)] = g.Id
+		return guard(func() string { return addErr(core.GetGroupChain().AddGroup(g)) })
 	}
 	if ws[0] == "restart" && len(ws) == 1 {
 		if preCycle() {
@@ -612,6 +701,29 @@ type gen struct {
 	alive  bool
 	part   int
 	parts  int
+	n      *node
+}
+
+// conc: two concurrent AddGroup calls on top of the current last; the outcome goes to the
+// protocol as two cadd lines in the sequential order that explains it (the model replays them
+// one after the other: a concurrent execution no sequential order explains shows as a diff).
+func (g *gen) conc() {
+	r := g.r
+	g.create++
+	i := r.Intn(len(g.pool))
+	j := (i + 1 + r.Intn(len(g.pool)-1)) % len(g.pool)
+	parent := g.listed[r.Intn(len(g.listed))]
+	line := fmt.Sprintf("conc %s %s %s %s %d", g.pool[i], g.pool[j], g.last(), parent, g.create)
+	g.n.exec(line)
+	for len(g.n.pending) >= 2 {
+		g.emit(g.n.pending[0])
+	}
+	// which call won is the scheduler's choice; look at the result, then remove the winner again so
+	// that everything after this point is the same op text for a fixed VERIF_SEED
+	g.emit("count")
+	g.emit("iter")
+	g.emit("dump")
+	g.emit("rmlast")
 }
 
 var idPool = []string{"a1", "a2", "b1b2", "c1c2c3", "d4", "e5e6", "f7"}
@@ -717,8 +829,21 @@ func (g *gen) randomSequence(maxOps int, allowCrash bool) {
 	for i := 0; i < n; i++ {
 		if g.r.Chance(1, 10) {
 			g.emit("restart")
+		} else if g.r.Chance(1, 12) && len(g.listed) > 0 {
+			g.conc()
 		} else {
-			g.emit(g.mutator(allowCrash))
+			op := g.mutator(allowCrash)
+			g.emit(op)
+			if (strings.HasPrefix(op, "rmlast") || strings.HasPrefix(op, "rmto")) && g.r.Chance(1, 3) {
+				// remove -> restart -> query -> add with nothing in between
+				g.emit("restart")
+				g.resync()
+				if g.alive {
+					g.probes()
+					g.create++
+					g.emit(fmt.Sprintf("add %s %s %s %d", g.pool[g.r.Intn(len(g.pool))], g.last(), g.listed[0], g.create))
+				}
+			}
 		}
 		g.resync()
 		if !g.alive {
@@ -727,6 +852,29 @@ func (g *gen) randomSequence(maxOps int, allowCrash bool) {
 			return
 		}
 		g.probes()
+	}
+}
+
+// concStress: many rounds of two concurrent AddGroup calls on one chain, shrinking it in between.
+func (g *gen) concStress(rounds int) {
+	g.pool = idPool
+	g.boot(1)
+	for i := 0; i < rounds && g.alive; i++ {
+		g.conc()
+		g.resync()
+		if !g.alive {
+			return
+		}
+		if i%3 == 2 {
+			// grow the chain a little so that later rounds race on a longer list
+			g.create++
+			g.emit(fmt.Sprintf("add %s %s %s %d", g.pool[i%len(g.pool)], g.last(), g.listed[0], g.create))
+			g.resync()
+		}
+		if i%15 == 14 {
+			g.emit("rmto 0")
+			g.resync()
+		}
 	}
 }
 
@@ -975,7 +1123,7 @@ func main() {
 		switch f[0] {
 		case "boot":
 			broken, crashed = false, false
-		case "add", "rmlast", "rmto", "restart", "crash":
+		case "add", "rmlast", "rmto", "restart", "crash", "cadd":
 		default:
 			return res
 		}
@@ -1016,7 +1164,7 @@ func main() {
 		seenKey[key] = true
 		return res
 	}
-	g := &gen{r: r, emit: emit, pool: idPool}
+	g := &gen{r: r, emit: emit, pool: idPool, n: n}
 
 	if mode == "corr" {
 		var err error
@@ -1048,6 +1196,7 @@ func main() {
 		for i := 0; i < nSeq; i++ {
 			g.randomSequence(maxOps, i%3 != 0)
 		}
+		g.concStress(hx.ArgInt(a, "conc", 40))
 		nEx = g.exhaustive(depth, true)
 	} else {
 		if part == 0 {
@@ -1063,6 +1212,7 @@ func main() {
 		for i := 0; i < nSeq; i++ {
 			g.randomSequence(maxOps, i%3 != 0)
 		}
+		g.concStress(hx.ArgInt(a, "conc", 40))
 		nEx = g.exhaustive(depth, true)
 	}
 
@@ -1076,7 +1226,7 @@ func main() {
 	}
 	st := out.StatsJSON()
 	vb, _ := json.Marshal(viols)
-	st = strings.TrimSuffix(st, "}") + fmt.Sprintf(",\"oracle_evaluations\":%d,\"viols\":%s,\"corpus_ops\":%d,\"random_sequences\":%d,\"exhaustive_sequences\":%d,\"exhaustive_depth\":%d,\"boots\":%d,\"restarts\":%d,\"physical_writes\":%d}",
-		evals, string(vb), nCorpus, nSeq, nEx, depth, n.nBoot, n.nRestart, n.writes)
+	st = strings.TrimSuffix(st, "}") + fmt.Sprintf(",\"oracle_evaluations\":%d,\"viols\":%s,\"corpus_ops\":%d,\"random_sequences\":%d,\"exhaustive_sequences\":%d,\"exhaustive_depth\":%d,\"concurrent_rounds\":%d,\"boots\":%d,\"restarts\":%d,\"physical_writes\":%d}",
+		evals, string(vb), nCorpus, nSeq, nEx, depth, n.nConc, n.nBoot, n.nRestart, n.writes)
 	fmt.Println("STATS " + st)
 }
